@@ -54,6 +54,10 @@ def cases(draw):
         drive = draw(gen.compositions(total, max_parts=5))
         if draw(st.booleans()):
             drive.insert(draw(st.integers(0, len(drive))), "solve")
+        if draw(st.integers(0, 2)) == 0:
+            # a local refinement in the middle of the search (Solver.DoLocalRefinement is public): it rewrites the
+            # reported optimum, the global search that follows must still be decided by the trials alone
+            drive.insert(draw(st.integers(1, len(drive))), "refine")
     return {"recipe": recipe, "params": params, "drive": drive}
 
 
@@ -62,8 +66,17 @@ def fresh_evolvent(run):
     return Evolvent(run.recipe["lower"], run.recipe["upper"], run.n, run.density())
 
 
+def do_refine(run):
+    import contextlib
+    a = len(run.problem.log)
+    with contextlib.redirect_stdout(run.out):
+        run.solver.DoLocalRefinement(5)
+    run.local = getattr(run, "local", []) + [(a, len(run.problem.log))]
+
+
 def cross_check_log(run, hist):
-    log = run.problem.log
+    local = getattr(run, "local", [])
+    log = [e for i, e in enumerate(run.problem.log) if not any(a <= i < b for a, b in local)]
     if len(log) != len(hist):
         fail("listener delivered %d trials but the objective was evaluated %d times" % (len(hist), len(log)))
     ev = fresh_evolvent(run)
@@ -87,6 +100,8 @@ def drive_run(case):
                 run.solve()
                 if "Exception was thrown" in run.stdout():
                     return run, run.history(), True
+            elif k == "refine":
+                do_refine(run)
             else:
                 run.step(k)
         return run, run.history(), False
@@ -101,6 +116,9 @@ def drive_run(case):
                 run.solve()
                 if "Exception was thrown" in run.stdout():
                     return run, run.history(), True
+                continue
+            if k == "refine":
+                do_refine(run)
                 continue
             for _ in range(k):
                 run.step(1)
@@ -118,9 +136,10 @@ def body(case):
     n, r = run.n, case["params"]["r"]
     model, info = replay_history(n, r, hist, check_rule=True)
     over = case["drive"] != "solve" and len(hist) > case["params"]["itersLimit"]
+    refined = case["drive"] != "solve" and "refine" in case["drive"]
     classes = ["N=%d" % n, "drive=%s" % ("solve" if case["drive"] == "solve" else
                                        ("continued-past-budget" if over else "batches")),
-               "family=%s" % case["recipe"]["obj"]["family"]]
+               "family=%s" % case["recipe"]["obj"]["family"]] + (["refined-mid-search"] if refined else [])
     if errored:
         if not model.next_is_degenerate():
             fail("the method stopped with an internal exception after %d trials although the decision rule "
